@@ -575,13 +575,25 @@ namespace cds { namespace intrusive {
             assert( iter != end());
 
             marked_data_ptr val( iter.data());
-            if ( iter.m_pNode->data.compare_exchange_strong( val, marked_data_ptr(), memory_model::memory_order_acquire, atomics::memory_order_relaxed )) {
-                --m_ItemCounter;
-                retire_data( val.ptr());
-                m_Stat.onEraseSuccess();
-                return true;
+            back_off bkoff;
+            while ( true ) {
+                if ( iter.m_pNode->data.compare_exchange_strong( val, marked_data_ptr(), memory_model::memory_order_acquire, atomics::memory_order_relaxed )) {
+                    --m_ItemCounter;
+                    retire_data( val.ptr());
+                    m_Stat.onEraseSuccess();
+                    return true;
+                }
+
+                if ( val.ptr() != iter.data()) {
+                    // the item pointed by the iterator has been removed or replaced
+                    return false;
+                }
+
+                // The item is still in its node but the data pointer is temporarily marked
+                // by a concurrent insertion that links a new node next to this one: try again
+                val = marked_data_ptr( iter.data());
+                bkoff();
             }
-            return false;
         }
 
         /// Extracts the item from the list with specified \p key
